@@ -14,6 +14,8 @@ Inductive c18case :=
 | BalCase (tau b0 : Z * Z) (ob : list ((Z * Z) * (Z * Z) * (Z * Z))) (bound : Z * Z) (below : nat)
   (* one fit_quantile call: arguments, starting expectile, the ratios returned by _get_quantile_ratio in order, and what
      the implementation did: expectiles handed to set_params in order, number of completed refits, ValueError?, final expectile *)
+  (* argument validation of fit_quantile: did the call raise ValueError before doing anything? *)
+| ArgCase (quantile tol : float) (max_iter : Z) (rejected : bool)
 | FqCase (quantile tol e0 : float) (max_iter : Z) (ratios : list float) (trace : list float) (refits : nat) (raised : bool) (final_e : float).
 
 Fixpoint feq_list (a b : list float) : bool :=
@@ -29,6 +31,8 @@ Definition check_code (c : c18case) : nat :=
       let r := balance_resid Drops (d2 tau) sqrt_eps (d2 b0) o in
       if negb (dleb (dabs r) (d2 bound)) then 1
       else if negb (Nat.eqb (count_below Drops o) below) then 2 else 0
+  | ArgCase quantile tol max_iter rejected =>
+      if Bool.eqb (Gen_fq_bad_quantile_f quantile || Gen_fq_bad_tol_f tol || Gen_fq_bad_max_iter max_iter) rejected then 0 else 9
   | FqCase quantile tol e0 max_iter ratios trace refits raised final_e =>
       let s := fq_result quantile tol e0 max_iter ratios in
       if negb (feq_list (rev (f_trace s)) trace) then 3
